@@ -800,7 +800,10 @@ class Config(DataProxy):
         .. versionadded:: 1.0
         """
         # Force merge of existing data to ensure we have an up to date picture
+        # (minus whatever an earlier shell env load left behind: only settings
+        # the other levels define *now* may be overridden.)
         debug("Running pre-merge for shell env loading...")
+        self._set(_env={})
         self.merge()
         debug("Done with pre-merge.")
         loader = Environment(config=self._config, prefix=self._env_prefix)
